@@ -10,7 +10,7 @@ progression lo + i*step whose step is provably non-negative (normalised min/max 
 guarded; `push` appends only after the finite and order checks and cannot fail after mutating; Series1.x has the validated type
 and every Series1 producer obtains x from try_from / a clone of an existing domain / a parameter of that type, with abscissae
 and ordinates built in lock-step (same source length, pushes in the same blocks, both reversed or neither).
-Series1::between appends the upper bound under `last kept abscissa < x1` and no further condition. Round 5: Series1 implements Func1 through f alone, f = interpolate, the provided fs is one f(x) per abscissa; sort_and_dedup merges under a small positive constant; try_from stores its input unchanged."""
+Series1::between appends the upper bound under `last kept abscissa < x1` and no further condition. Round 5: Series1 implements Func1 through f alone, f = interpolate, the provided fs is one f(x) per abscissa; sort_and_dedup merges under a small positive constant; try_from stores its input unchanged. Round 6: index_of searches with partial_cmp; resampled_x takes ceil(span / spacing + 1) points; bounds_at_y0 sorts and de-duplicates the crossings TOGETHER with x_min and x_max."""
 NOT_DECIDED = "y.len()==x.len() for the public unchecked Series1::new / public fields; values of interpolation, crossings, areas and resampling (only their formulas, guards and order are decided), area additivity; serde Deserialize derives construct without validation (derive expansions are out of scope)"
 ASSUMPTIONS = ["iterator adapters map/rev/cloned/collect preserve length; zip yields the common length"]
 
